@@ -6,12 +6,20 @@ CONSTANTS MaxWrites, Statuses
 VARIABLES sc, done
 vars == <<sc, done>>
 Sources == SUBSET {"config", "delta", "bat", "pager"}
+Base == [stay : {FALSE}, big : {FALSE}, how : {"files"}]
+Join(S, T) == {s @@ t : s \in S, t \in T}
 Scenarios ==
-  [mode : {"stdin"}, out : {"stdout"}, quit : 0..MaxWrites, status : {0}, src : {{}}, pagerval : {"envpager"}]
-  \cup [mode : {"stdin"}, out : {"pager"}, quit : {0, 1, 10, 5000}, status : {0}, src : Sources,
-        pagerval : {"envpager", "more", "less -F"}]
-  \cup [mode : {"diff", "wrap"}, out : {"stdout"}, quit : {0, 1, 3}, status : Statuses, src : {{}}, pagerval : {"envpager"}]
-  \cup [mode : {"diff", "wrap"}, out : {"pager"}, quit : {0, 10}, status : Statuses, src : {{"config"}, {}}, pagerval : {"envpager"}]
+  Join([mode : {"stdin"}, out : {"stdout"}, quit : 0..MaxWrites, status : {0}, src : {{}}, pagerval : {"envpager"}], Base)
+  \cup Join([mode : {"stdin"}, out : {"pager"}, quit : {0, 1, 10, 5000}, status : {0}, src : Sources,
+        pagerval : {"envpager", "more", "less -F"}], Base)
+  \cup Join([mode : {"diff", "wrap"}, out : {"stdout"}, quit : {0, 1, 3}, status : Statuses, src : {{}}, pagerval : {"envpager"}], Base)
+  \cup Join([mode : {"diff", "wrap"}, out : {"pager"}, quit : {0, 10}, status : Statuses, src : {{"config"}, {}}, pagerval : {"envpager"}], Base)
+  \* a pager that stops reading but stays alive, with more output than the pipe holds / that fits into it
+  \cup [mode : {"stdin", "wrap"}, out : {"pager"}, quit : {1, 10, 5000}, status : {0}, src : {{}, {"config"}, {"pager"}},
+        pagerval : {"envpager"}, stay : {TRUE}, big : BOOLEAN, how : {"files"}]
+  \* two-file mode: the same path twice; an option the differ rejects
+  \cup [mode : {"diff"}, out : {"stdout", "pager"}, quit : {0}, status : {0, 2}, src : {{}}, pagerval : {"envpager"},
+        stay : {FALSE}, big : {FALSE}, how : {"samepath", "badopt"}]
 Init == sc \in Scenarios /\ done = FALSE
 Next == ~done /\ done' = TRUE /\ UNCHANGED sc
 Spec == Init /\ [][Next]_vars
@@ -19,5 +27,5 @@ Total == WantExit(sc) \in 0..255 /\ Chosen(sc) \in {"mypager", "otherpager", "ba
 QuitIsQuiet == sc.quit > 0 => WantExit(sc) = 0 /\ WantQuiet(sc)
 Replay == done \/ PrintT(<<"REPLAY", ToJson([mode |-> sc.mode, out |-> sc.out, quit |-> sc.quit, status |-> sc.status,
                                              src |-> [x \in {"config", "delta", "bat", "pager"} |-> x \in sc.src],
-                                             pagerval |-> sc.pagerval])>>)
+                                             pagerval |-> sc.pagerval, stay |-> sc.stay, big |-> sc.big, how |-> sc.how])>>)
 =============================================================================
